@@ -251,6 +251,10 @@ func EDiv(a, b *Term) *Term {
 	if b.Op == "const" && b.V.Cmp(big.NewInt(1)) == 0 {
 		return a
 	}
+	// (x div c1) div c2 = x div (c1*c2) for positive constants (floor division)
+	if b.Op == "const" && b.V.Sign() > 0 && a.Op == "div" && a.Args[1].Op == "const" && a.Args[1].V.Sign() > 0 {
+		return EDiv(a.Args[0], IntB(new(big.Int).Mul(a.Args[1].V, b.V)))
+	}
 	return mk("div", IntS, a, b)
 }
 func EMod(a, b *Term) *Term {
